@@ -74,6 +74,27 @@ def rule_closure(ctx: Ctx) -> None:
     stored = [s_ for s_ in ast.walk(sp.node) if isinstance(s_, ast.Assign) and any(isinstance(t_, ast.Subscript) and "self." in norm(t_.value) for t_ in s_.targets)]
     ctx.add("1-closure", sp, (stale or stored or [sp.node])[0], not stale and not stored, "every call returns a newly built pipeline" if not stale and not stored else
             "subpipeline keeps / hands out a pipeline object it has returned before: a caller that modifies its sub-pipeline (defaults, drop, ...) changes what later restricted runs compute", key="fresh-result")
+    # the restriction is validated as a WHOLE: removing the unneeded functions one at a time through a method that validates after
+    # every removal judges pipelines that are neither the original nor the request (two consumers with different defaults for a
+    # name that one of the already-removed functions produced)
+    pl_cls = P.cls(f"{BASE}.Pipeline")
+
+    def self_calls(node: ast.AST, recv: str) -> list[ast.Call]:
+        return [c for c in ast.walk(node) if isinstance(c, ast.Call) and isinstance(c.func, ast.Attribute) and norm(c.func.value) == recv and c.func.attr in dict.keys(pl_cls.methods)]
+
+    validating = {"_validate"}
+    grew = True
+    while grew:
+        grew = False
+        for nm, m in dict.items(pl_cls.methods):
+            if nm not in validating and any(c.func.attr in validating for c in self_calls(m.node, "self")):
+                validating.add(nm)
+                grew = True
+    copies_ = {t.id for a_ in walk_no_nested(sp.node) if isinstance(a_, ast.Assign) and isinstance(a_.value, ast.Call) and norm(a_.value.func) == "self.copy" for t in a_.targets if isinstance(t, ast.Name)}
+    stepwise = [c for lp in walk_no_nested(sp.node) if isinstance(lp, (ast.For, ast.While)) for recv in copies_ for c in self_calls(lp, recv) if c.func.attr in validating]
+    ctx.add("1-closure", sp, stepwise[0] if stepwise else sp.node, not stepwise, "the restricted pipeline is validated once, as a whole" if not stepwise else
+            f"`{norm(stepwise[0])[:50]}` (in a loop) validates the pipeline after every single removal: a half-restricted pipeline can be invalid although the request is fine - "
+            "with y = f(x), zg = g(y=1), zh = h(y=2) the request subpipeline({'y'}, {'zg'}) is refused for \"inconsistent defaults\" of y whenever f is removed before h", key="validated-as-a-whole")
     uses = bool(ssc.calls("_find_nodes_between"))
     ctx.tri("1-closure", sp, sp.node, uses, False, "the kept set comes from _find_nodes_between", "", "_find_nodes_between is not called from subpipeline", key="drop")
 
